@@ -74,6 +74,18 @@ func (C11) Generate(rng *rand.Rand, tier string, runIdx uint64) simkit.Plan {
 					Step{Op: "register", Node: node, Addr: "10.0.0.8", SkipNode: true, Checks: []Check{{ID: "cmove", Status: g.status(), SvcID: inst}}})
 				continue
 			}
+			if simkit.Chance(rng, 12) {
+				// an instance id that moves to another service name in the same registration that changes its node
+				// (address, or a node-level check): subscribers of the old name must see it leave
+				node := g.pick(u.Nodes)
+				a, b := u.Services[rng.IntN(len(u.Services))], u.Services[rng.IntN(len(u.Services))]
+				mv := Step{Op: "register", Node: node, Addr: simkit.Pick(rng, []string{"10.0.0.6", "10.0.0.7"}), Svc: b, SvcID: "mv1", Port: 8000}
+				if simkit.Chance(rng, 50) {
+					mv.Checks = []Check{{ID: "serfHealth", Status: g.status()}}
+				}
+				p.Steps = append(p.Steps, Step{Op: "register", Node: node, Addr: "10.0.0.5", Svc: a, SvcID: "mv1", Port: 8000}, mv)
+				continue
+			}
 			p.Steps = append(p.Steps, Step{Op: "drain", N: int64(1 + rng.IntN(2))})
 		case 2:
 			s := Step{Op: "sub", N: sub, Name: simkit.Pick(rng, c11Topics), Svc: g.pick(u.Services), Idx: simkit.Pick(rng, []string{"zero", "zero", "last", "last", "stale"})}
